@@ -97,9 +97,10 @@ theorem ntinv_after_initPush (H : OHyp E rank Good) {s1 s3 : St U π} {nt : UNT 
   have hseen : s3.seenOf nt = items.map (·.2) := by rw [r5]; show s1.seenOf nt ++ _ = _; rw [m4]; rfl
   have hsucc : s3.succOf nt = [] := by rw [r6]; exact m3
   have hst : Stable s1 s3 := r3
-  refine ⟨r1, ⟨⟨?_, ?_, ?_, ?_, ?_, ?_⟩, ?_, ?_, ?_, ?_⟩, (only_setMaxNT s1 nt b.1).trans r2, hst⟩
+  refine ⟨r1, ⟨⟨?_, ?_, ?_, ?_, ?_, ?_, ?_⟩, ?_, ?_, ?_, ?_⟩, (only_setMaxNT s1 nt b.1).trans r2, hst⟩
   · rw [r7]; exact m1
   · rw [hsucc]; trivial
+  · rw [hsucc]; exact List.nodup_nil
   · refine ⟨b.1, by rw [r8]; exact AList.lookup_insert_self _ _ _, Or.inr ⟨hsucc, b.2, ?_⟩⟩
     rw [hheap, ← hph.root]; rfl
   · intro F kids v hm hk i ai si hai hsi
